@@ -35,6 +35,9 @@ THEOREMS = [
     "Aio.C13.srv_close_nodrain_skips_drain",
     "Aio.C13.srv_autoclose_uses_nodrain",
     "Aio.C13.peer_close_while_write_paused_is_not_blocked",
+    "Aio.C13.calcWhen_at_or_below_threshold",
+    "Aio.C13.calcWhen_above_threshold",
+    "Aio.C13.flowControl_parks_only_over_limit_and_paused",
 ]
 RULE = ("One scenario = a session configuration (server|client, autoclose, autoping, heartbeat in {none,2,8,11 s}, "
         "receive timeout in {none,0.75,3 s}, close timeout in {0.5,1.5,10 s}, writer limit in {1,20,65536} / client default) "
@@ -236,6 +239,15 @@ def parse_proj(line):
     return d
 
 
+def overwritten_by_receive(P, op_at, good):
+    """the close code of a closed session was `good` and is replaced at a step in which a receive() call finishes
+    (receive() assigns _close_code before calling close(), which is a no-op on a closed session) — and only then"""
+    for j in range(1, len(P)):
+        if P[j - 1]["c"] == "1" and P[j - 1]["cc"] == good and P[j]["cc"] != good:
+            return any(P[j - 1]["tasks"][t] == "p" and P[j]["tasks"][t] != "p" and op_at[j - 1].get(t) == "recv" for t in range(3))
+    return False
+
+
 def oracle(ctx, cfg, labels, trace, a_end, complete, case, a_start=None):
     """The property, judged on the implementation's own observations (no model involved).
     `trace[i]` is the projection of the real objects after `labels[i-1]`."""
@@ -263,28 +275,31 @@ def oracle(ctx, cfg, labels, trace, a_end, complete, case, a_start=None):
     # -- close() returns within the close timeout (back-pressure is not one of the property's actors:
     #    judged only when the transport was never write-paused)
     T = cfg["close_timeout"]
-    start = {}
-    start_idx = {}
-    for i in range(1, len(P)):
-        lab = labels[i - 1]
-        if lab[0] == "call" and lab[2] == "close" and P[i - 1]["tasks"][lab[1]] != "p" and P[i]["tasks"][lab[1]] == "p":
-            start[lab[1]] = P[i]["now"]
-            start_idx[lab[1]] = i
-        for t in list(start):
-            st = P[i]["tasks"][t]
-            dur = P[i]["now"] - start[t]
-            if st != "p":
-                del start[t]
-            if dur > T and not paused_ever:
-                # structural: a non-CLOSE peer frame reached the queue while this close() was waiting (the deadline
-                # was re-armed per message).  The client does this on the unchanged tree (known finding F22); the
-                # server has one deadline around its whole loop, so the server signature is a different violation.
-                restarted = any(labels[j - 1][0] == "peer" and labels[j - 1][1] in ("text", "ping", "pong")
-                                and P[j - 1]["tasks"][t] == "p" and P[j - 1]["tc"] == "0"
-                                for j in range(start_idx[t] + 1, i + 1))
-                ctx.violation("C13/close-exceeds-timeout/" + (cfg["side"] + "-timeout-restarts-per-message" if restarted else "other"),
-                              case, f"close() of task {t} still running/returned after {dur} ms > close timeout {T} ms")
-                start.pop(t, None)
+    if not paused_ever:
+        open_calls = {}     # task slot -> index at which its close() call started
+        spans = []          # (task, start index, end index or None)
+        for i in range(1, len(P)):
+            lab = labels[i - 1]
+            if lab[0] == "call" and lab[2] == "close" and P[i - 1]["tasks"][lab[1]] != "p" and P[i]["tasks"][lab[1]] == "p":
+                open_calls[lab[1]] = i
+            for t in list(open_calls):
+                if P[i]["tasks"][t] != "p":
+                    spans.append((t, open_calls.pop(t), i))
+        spans += [(t, i0, None) for t, i0 in open_calls.items()]
+        for t, i0, i1 in spans:
+            end = len(P) - 1 if i1 is None else i1
+            dur = P[end]["now"] - P[i0]["now"]
+            if dur <= T:
+                continue
+            # structural: non-CLOSE peer frames reached the queue while this close() was waiting and close() returned within
+            # one timeout of the last of them = the deadline is re-armed per message (client: known finding F22; the server has
+            # one deadline around its loop, so the server signature is a different violation).  Anything longer is something else.
+            msgs = [j for j in range(i0 + 1, end + 1)
+                    if labels[j - 1][0] == "peer" and labels[j - 1][1] in ("text", "ping", "pong")
+                    and P[j - 1]["tasks"][t] == "p" and P[j - 1]["tc"] == "0"]
+            restarted = bool(msgs) and i1 is not None and P[end]["now"] <= P[msgs[-1]]["now"] + T
+            ctx.violation("C13/close-exceeds-timeout/" + (cfg["side"] + "-timeout-restarts-per-message" if restarted else "other"),
+                          case, f"close() of task {t} {'returned' if i1 is not None else 'still running'} after {dur} ms > close timeout {T} ms")
     if a_end is None or not complete:
         return
     A, B = P[a_end], P[-1]
@@ -373,10 +388,11 @@ def oracle(ctx, cfg, labels, trace, a_end, complete, case, a_start=None):
             n_close = sum(1 for f in A["frames"] if f.startswith("C"))
             if A["cc"] != pcode or n_close != 1 or A["ex"] != "-":
                 over = any(p["c"] == "1" and p["cc"] == pcode for p in P[k:a_end])
+                over_recv = overwritten_by_receive(P[:a_end + 1], op_at, pcode)
                 # structural: the peer's code was already recorded on the closed session, then a close() whose read() had been
                 # woken for that very CLOSE found the queue empty (receive() took the message) -> EofStream -> 1006
                 stolen = over and n_close == 1 and A["cc"] == "1006" and A["ex"] == "eof"
-                ctx.violation("C13/close-code/receive-overwrites-code-of-closed-session" if (over and n_close == 1 and A["ex"] == "-")
+                ctx.violation("C13/close-code/receive-overwrites-code-of-closed-session" if (over_recv and n_close == 1 and A["ex"] == "-")
                               else "C13/close-code/close-overwrites-peer-code-after-receive-took-the-close" if stolen
                               else "C13/peer-close-received/not-a-clean-end", case,
                               f"peer's CLOSE({pcode}) was received and nothing went wrong afterwards, but the session ended with close code "
@@ -416,7 +432,7 @@ def oracle(ctx, cfg, labels, trace, a_end, complete, case, a_start=None):
     if A["c"] == "1" and not faults and not timed_out and delivered and delivered[0] != 0 \
             and any(f.startswith("C") for f in A["frames"]):
         if A["cc"] != str(delivered[0]):
-            over = any(p["c"] == "1" and p["cc"] == str(delivered[0]) for p in P[:a_end])
+            over = overwritten_by_receive(P[:a_end + 1], op_at, str(delivered[0]))
             ctx.violation("C13/close-code/" + ("receive-overwrites-code-of-closed-session" if over
                                                else "server-closing-message-sets-ok" if (closing_msg and A["cc"] == "1000")
                                                else "clean-handshake-wrong-code"), case,
@@ -424,7 +440,7 @@ def oracle(ctx, cfg, labels, trace, a_end, complete, case, a_start=None):
     if B["c"] == "1" and not delivered and B["cc"] != "1006":
         if B["cw"] != "-" and close_cancelled and B["cc"] in ("-", "1000"):
             kind = "close-cancelled-in-close-wait"
-        elif any(p["c"] == "1" and p["cc"] == "1006" for p in P):
+        elif overwritten_by_receive(P, op_at, "1006"):
             ctx.violation("C13/close-code/receive-overwrites-code-of-closed-session", case,
                           f"session was closed with code 1006, a later receive() replaced it by {B['cc']}: {trace[-1]}")
             return
@@ -444,7 +460,13 @@ def oracle_f9(ctx, cfg, size, seg):
     res = c13sim.run_fragment_wedge(cfg, size, seg)
     ctx.hit("f9:" + res["status"])
     if res["status"] == "p" and res["idle"]:
-        ctx.violation("C13/receive-parked/reader-pause-wedge", {"kind": "f9", "cfg": cfg, "size": size, "seg": seg},
+        from aiohttp.http_websocket import WebSocketReader
+        import inspect
+        cap = max(1024, 4 * 1024 * 1024 // 256)      # WebSocketReader._max_fragments for the default max_msg_size
+        # narrow: the known wedge needs more reads than the fragment cap and a read-paused transport; any other stall is new
+        sig = ("C13/receive-parked/reader-pause-wedge" if (res["read_paused"] and res["reads"] > cap and res["undelivered"] > 0)
+               else "C13/receive-parked/fragmented-frame-other")
+        ctx.violation(sig, {"kind": "f9", "cfg": cfg, "size": size, "seg": seg},
                       f"receive() parked forever: transport read-paused={res['read_paused']} after {res['reads']} reads, "
                       f"{res['undelivered']} bytes of the frame never read, nothing ready, no timer")
     return res
@@ -463,6 +485,8 @@ def oracle_flow(ctx, plan):
     exp = [(f[0], f[1]) for f in plan["frames"] if f[0] in ("bin", "text")]
     code = next(f[1] for f in plan["frames"] if f[0] == "close")
     exp_all = exp + [(f"CLOSE{code}",)]
+    if plan.get("app") in ("iter", "handler"):
+        exp_all = exp + [("ITER_END",)]       # `async for` ends silently at the peer's CLOSE
     got = [tuple(g) for g in res["got"]]
     ctx.hit("flow:" + plan["side"], "flow:pauses>0" if res["pauses"] else "flow:no-pause",
             "flow:eager" if plan.get("eager") else "flow:after-handshake")
@@ -508,6 +532,14 @@ def flow_plans(rng, quick):
                                   "split_after": 1, "gap_ms": 125})
                     plans.append({"side": side, "frames": [("text", 3), ("bin", n), ("bin", n), ("close", 1000)], "seg": seg,
                                   "app_delay_ms": delay, "split_after": 2, "gap_ms": 250})
+        # the application shapes users actually write: `async for msg in ws` in a task, and a server handler that iterates and returns
+        for app in (("iter", "handler") if side == "server" else ("iter",)):
+            for frames in ([("text", 5), ("ping",), ("bin", 70000), ("close", 4001)], [("close", 1000)],
+                           [("bin", L + 4096), ("text", 1), ("close", 1001)]):
+                for delay in (0, 5):
+                    plans.append({"side": side, "frames": frames, "seg": 65536, "app": app, "app_delay_ms": delay})
+            plans.append({"side": side, "frames": [("bin", 30000)] * 30 + [("close", 1000)], "seg": 65536, "app": app, "eager": True,
+                          "app_delay_ms": 5, **({"pre_delay_ms": 1000, "read_bufsize": 2 ** 20} if side == "server" else {})})
         # many medium messages that together cross the mark while the application is slow
         for k, n in ((40, 30000), (12, 100000)):
             plans.append({"side": side, "frames": [("bin", n)] * k + [("text", 1), ("close", 4000)], "seg": 65536, "app_delay_ms": 5})
@@ -567,17 +599,55 @@ def exhaustive_cases(rng, quick):
     return cases
 
 
+class _Hang(Exception):
+    pass
+
+
+def _guarded(cfg, labels, budget_s=60):
+    """run one scenario under a wall-clock watchdog: a callback that never gives control back to the loop (busy loop in
+    the code under test) must end this scenario with a replay, not hang the check"""
+    import signal
+
+    def on_alarm(signum, frame):
+        raise _Hang()
+    old = signal.signal(signal.SIGALRM, on_alarm)
+    signal.setitimer(signal.ITIMER_REAL, budget_s)
+    try:
+        return c13sim.run_scenario(cfg, labels, epilogue=True)
+    except _Hang:
+        return None
+    finally:
+        signal.setitimer(signal.ITIMER_REAL, 0)
+        signal.signal(signal.SIGALRM, old)
+
+
 def run_and_judge(ctx, cases, where):
-    results = [c13sim.run_scenario(cfg, labels, epilogue=True) for cfg, labels in cases]
+    results = []
+    kept = []
+    for cfg, labels in cases:
+        r = _guarded(cfg, labels)
+        if r is None:
+            ctx.violation("C13/callback-never-returns", {"kind": "run", "cfg": cfg, "labels": [lab_token(l) for l in labels]},
+                          "one loop callback ran for more than 60 s of wall time: the session code does not give control back")
+            continue
+        kept.append((cfg, labels)); results.append(r)
+    cases = kept
     outs = ctx.model([model_line(cfg, res["labels"]) for (cfg, _), res in zip(cases, results)])
     for i, ((cfg, labels0), res) in enumerate(zip(cases, results)):
         labels = res["labels"]
         case = {"kind": "run", "cfg": cfg, "labels": [lab_token(l) for l in labels0]}
         if res["tie"]:
+            # two armed timers share a deadline: their order is not modelled, so no comparison with the model —
+            # but the oracle judges the real objects and needs no model
             ctx.hit("skipped:timer-tie")
+            oracle(ctx, cfg, labels, res["trace"], res["a_end"], res["complete"], case, a_start=len(labels0))
             continue
         if not res["complete"]:
+            # liveness budget: with a silent peer (phase A) and after the connection is lost (phase B) the session must become
+            # quiescent within 400 loop steps each; a timer/callback that re-arms itself for ever is a violation, not a skip
             ctx.hit("epilogue-truncated")
+            ctx.violation("C13/no-quiescence/callbacks-or-timers-rearm-for-ever", case,
+                          f"after the scripted events the loop did not become idle within 400 steps (silent peer, then connection lost): {res['trace'][-1]}")
         last = res["trace"][-1]
         ctx.case((where, cfg, [lab_token(l) for l in labels0]), nontrivial=len(set(res["trace"])) > 2,
                  sample={"cfg": cfg, "labels": [lab_token(l) for l in labels0][:24], "final": last} if i % 997 == 0 else None)
@@ -612,8 +682,48 @@ F9_CFG = {"side": "server", "autoclose": True, "autoping": True, "heartbeat": No
           "close_timeout": 10000, "limit": 65536}
 
 
+def corpus_cases():
+    """one scripted scenario per mechanism the check claims to catch — run first on every seed, independent of the random stream"""
+    srv, cli = BASE_CFGS[0], BASE_CFGS[1]
+    out = []
+    for base in (srv, cli):
+        big_eq = 18 if base["side"] == "server" else CLIENT_LIMIT - 14      # header + payload (+ mask) == writer limit exactly
+        lim = dict(base, limit=20) if base["side"] == "server" else base
+        # two closers, with and without a parked receive(); close again afterwards; send / ping after the close
+        out.append((base, [("call", 0, "close", 1000), ("call", 1, "close", 1001), ("tick",), ("tick",), ("tick",), ("peer", "close", 4000),
+                           ("tick",), ("tick",), ("call", 2, "close", 1000), ("tick",), ("call", 2, "send", 5), ("tick",), ("call", 2, "ping"), ("tick",)]))
+        out.append((base, [("call", 2, "recv"), ("tick",), ("call", 0, "close", 1000), ("tick",), ("call", 1, "close", 1001), ("tick",),
+                           ("tick",), ("tick",), ("peer", "close", 4000), ("tick",), ("tick",)]))
+        # a receive() that timed out leaves the queue's waiter slot clean: the next frame and the next receive() work
+        rt = dict(base, recv_timeout=750)
+        out.append((rt, [("call", 0, "recv"), ("tick",), ("tick",), ("tick",), ("tick",), ("peer", "text", 3), ("tick",), ("call", 0, "recv"),
+                         ("tick",), ("tick",), ("call", 1, "recv"), ("tick",), ("peer", "text", 3), ("tick",), ("tick",)]))
+        out.append((rt, [("call", 0, "recv"), ("tick",), ("cancel", 0), ("peer", "text", 3), ("tick",), ("call", 1, "recv"), ("tick",), ("tick",)]))
+        # tasks parked in the writer's drain are released by a clean and by an unclean connection loss and by resume
+        for fin in (("drop", 0), ("drop", 1), ("resumew",)):
+            out.append((lim, [("pausew",), ("call", 0, "send", 30 if base["side"] == "server" else CLIENT_LIMIT), ("tick",),
+                              ("call", 1, "close", 1000), ("tick",), ("call", 2, "ping"), ("tick",), fin, ("tick",), ("tick",), ("tick",), ("tick",)]))
+        # the writer's flow-control threshold: _output_size == limit does not drain, limit + 1 does
+        out.append((lim, [("pausew",), ("call", 0, "send", big_eq), ("tick",), ("call", 1, "send", 0), ("tick",), ("resumew",), ("tick",)]))
+        out.append((lim, [("pausew",), ("call", 0, "send", big_eq + 1), ("tick",), ("call", 1, "send", 0), ("tick",), ("resumew",), ("tick",)]))
+        # heartbeat: ping, pong in time, next ping, no pong -> 1006 (parked receive() gets the ERROR message)
+        hb = dict(base, heartbeat=2000)
+        out.append((hb, [("call", 0, "recv"), ("tick",), ("tick",), ("tick",), ("adv", 500), ("peer", "pong"), ("tick",), ("tick",), ("tick",)]))
+        # calculate_timeout_when: deadlines above the 5 s threshold are rounded up to whole seconds, at or below it they are not
+        for h in (5000, 5250, 10000, 10250):
+            out.append((dict(base, heartbeat=h), [("adv", 125), ("peer", "text", 3), ("tick",), ("tick",), ("call", 0, "recv"), ("tick",), ("tick",)]))
+        # empty CLOSE payload, protocol error, EOF while receive() is parked
+        out.append((base, [("call", 0, "recv"), ("tick",), ("peer", "close", 0), ("tick",), ("tick",), ("tick",)]))
+        out.append((base, [("call", 0, "recv"), ("tick",), ("peer", "bad"), ("tick",), ("tick",), ("peer", "text", 3), ("tick",)]))
+        out.append((base, [("call", 0, "recv"), ("tick",), ("drop", 0), ("tick",), ("tick",), ("tick",), ("call", 0, "recv"), ("tick",)]))
+        out.append((dict(base, autoping=False), [("call", 0, "recv"), ("tick",), ("peer", "ping"), ("tick",), ("call", 0, "recv"), ("tick",),
+                                                  ("peer", "pong"), ("tick",)]))
+    return out
+
+
 def check(ctx):
     rng = ctx.rng
+    run_and_judge(ctx, corpus_cases(), "corpus")
     ctx.extra["writer_variant"] = ("repaired (F17 fixed): model run with cfg.fixed = true — no_data_after_close_frame_fixed applies"
                                    if writer_variant() else
                                    "as found: model run with cfg.fixed = false — no_data_after_close_frame_partial + counterexample f17_data_after_close apply")
